@@ -302,6 +302,44 @@ def run_part_shard(module_name: str, part_name: str, tier: str, seed: int, shard
     return res
 
 
+def run_regress(module_name: str, files: list) -> dict:
+    """Replay tier: committed shrunk failures (regress/<id>/*.json) as plain regression checks."""
+    t0 = time.time()
+    res = {"part": "regression_replays", "shard": 0, "status": "ok", "evaluations": 0, "labels": {},
+           "nontrivial": [], "distinct": 0, "samples": [], "skipped_budget": 0, "known_hits": {},
+           "failure": None, "error": None, "wall_s": 0.0, "exhaustive": False, "extra": {}, "regress": True}
+    try:
+        from . import capture
+
+        capture.install()
+        mod = importlib.import_module(module_name)
+        for path in files:
+            with open(path) as f:
+                rp = json.load(f)
+            part = next(p for p in mod.PARTS if p.name == rp["part"])
+            ctx = Ctx(mod.PROPERTY_ID, part.name, "quick", 0, 0, 1e9)
+            if part.setup is not None:
+                part.setup(ctx)
+            ctx.begin_case()
+            try:
+                part.body(rp["case"], ctx)
+            except Violation as v:
+                if v.key is not None and v.key in ctx.known:
+                    res["known_hits"][v.key] = res["known_hits"].get(v.key, 0) + 1
+                else:
+                    res["status"] = "violation"
+                    res["failure"] = {"case": rp["case"], "message": v.msg, "key": v.key, "reproduced": True,
+                                      "part": part.name, "path": path}
+                    break
+            res["evaluations"] += 1
+            res["labels"][os.path.basename(path)] = 1
+    except BaseException as e:  # noqa: BLE001
+        res["status"] = "error"
+        res["error"] = "".join(traceback.format_exception(type(e), e, e.__traceback__))[-6000:]
+    res["wall_s"] = time.time() - t0
+    return res
+
+
 def _run_stateful(part, ctx, tier, dseed, n_examples, run_one):
     """part.strategy(tier) returns (MachineClass, interpret) -- see sophtverif.stateful."""
     from hypothesis import seed as hseed
@@ -344,13 +382,21 @@ def run_property(module_name: str, tier: str, seed: int, jobs: int | None = None
             tasks.append((module_name, p.name, tier, seed, sh, budget * p.weight, per))
 
     results = []
-    if jobs == 1 or len(tasks) == 1:
+    rdir = os.path.join(VERIF_ROOT, "regress", prop_id)
+    rfiles = sorted(os.path.join(rdir, f) for f in os.listdir(rdir) if f.endswith(".json")) if os.path.isdir(rdir) else []
+    if only_parts:
+        rfiles = []
+    if jobs == 1 or (len(tasks) == 1 and not rfiles):
+        if rfiles:
+            results.append(run_regress(module_name, rfiles))
         for t in tasks:
             results.append(run_part_shard(*t))
     else:
         ctxmp = mp.get_context("spawn")
-        with ProcessPoolExecutor(max_workers=min(jobs, len(tasks)), mp_context=ctxmp) as ex:
+        with ProcessPoolExecutor(max_workers=min(jobs, len(tasks) + 1), mp_context=ctxmp) as ex:
             futs = {ex.submit(run_part_shard, *t): t for t in tasks}
+            if rfiles:
+                futs[ex.submit(run_regress, module_name, rfiles)] = (module_name, "regression_replays", tier, seed, 0)
             for fu in as_completed(futs):
                 try:
                     results.append(fu.result())
@@ -406,8 +452,12 @@ def finish(mod, tier: str, seed: int, results: list[dict], wall_s: float) -> int
 
     # replay files
     viol_lines = []
+    seen_paths = set()
     for r in viols:
         fz = r["failure"]
+        if r.get("regress"):
+            viol_lines.append((fz["path"], fz["message"], fz["part"] + " (regression replay)"))
+            continue
         rid = case_digest([r["part"], fz["case"]])
         d = os.path.join(os.environ.get("SOPHTVERIF_REPLAY_DIR", os.path.join(VERIF_ROOT, "replays")), prop_id)
         os.makedirs(d, exist_ok=True)
@@ -417,7 +467,9 @@ def finish(mod, tier: str, seed: int, results: list[dict], wall_s: float) -> int
                        "case": fz["case"], "message": fz["message"], "key": fz["key"],
                        "reproduced_without_hypothesis": fz["reproduced"], "tier": tier,
                        "seed": seed}, f, indent=1, default=_json_default)
-        viol_lines.append((path, fz["message"], r["part"]))
+        if path not in seen_paths:
+            viol_lines.append((path, fz["message"], r["part"]))
+            seen_paths.add(path)
 
     evidence = {
         "property_id": prop_id,
